@@ -53,7 +53,8 @@ def main():
     j = 3
     if args[:1] == ["-j"]:
         j = int(args[1]); args = args[2:]
-    dirs = sorted(d for d in glob.glob("/verif/seeded/*") if os.path.isdir(d) and os.path.exists(d + "/patch.diff"))
+    dirs = sorted(d for d in glob.glob("/verif/seeded/*") if os.path.isdir(d) and os.path.exists(d + "/patch.diff")
+                  and "superseded_by" not in json.load(open(d + "/meta.json")))
     if args:
         dirs = [d for d in dirs if any(a in d for a in args)]
     res = []
